@@ -323,7 +323,8 @@ func c13Known(cdc *cdcCodec, v0 reflect.Value, ap c13Applied, obs, detail string
 		if (lr != nil && lr.Reason != typegen.RTrailing) || n != consumed {
 			return false
 		}
-		sn, sr := cdcRefDecode(cdc, s, seg, "")
+		// ... and the implementation's grammar WITHOUT that early return does not
+		sn, sr := cdcRefDecode(cdc, s, seg, "impl")
 		return (sr != nil && sr.Reason != typegen.RTrailing) || sn != consumed
 	}
 	mpath := ""
